@@ -453,11 +453,7 @@ def rt_post(c, p):
     ins = p.called(r"ResetTokenTable::insert")
     if not idx or not ins:
         return "false"
-    # memory behind the &mut ConnectionMeta that index_mut returned: "*<local holding the reference>"
-    holder = [k for k, v in p.p.state.alias.items() if v == idx[0][2]]
-    if not holder:
-        return "false"
-    meta = "*" + holder[0]
+    meta = "*" + idx[0][2]                    # memory behind the &mut ConnectionMeta that index_mut returned
     rt = "%s.%d" % (meta, c.field("endpoint.rs", "ConnectionMeta", "reset_token"))
     had_old = eq(c.inp(rt + "#discr", I64), bv(1))
     conj = []
@@ -485,3 +481,38 @@ Q(name="e2_endpoint_reset_token_event", props=["C08", "C09"], func=r"endpoint\.r
   functions=["Endpoint::handle_event (ResetToken arm)"], pre=rt_pre, post=rt_post,
   bounds="every stored Option<(address, token)> and every reported pair; Slab indexing and the table's remove / insert are opaque - the query fixes WHICH values they are called with (symbolic leaves of the stored vs. reported pair are distinct variables)",
   replay=("endpoint_reset_token_event_native", lambda m: [dict(same_addr=0), dict(same_addr=1)]))
+
+
+
+# ------------------------------------------------------------------ C04: every authenticated packet is counted (Retry / Version Negotiation included)
+def _cf(c, name):
+    return "*_1.%d" % c.field("connection/mod.rs", "Connection", name)
+
+
+def opa_pre(c):
+    return and_(ult(c.inp(_cf(c, "total_authed_packets"), BV64), V62), ule(c.inp("_3#discr", I64), bv(2)), ule(c.inp("_5#discr", I64), bv(1)))
+
+
+def opa_post(c, p):
+    k = _cf(c, "total_authed_packets")
+    conj = [eq(p.out(k, BV64), "(bvadd %s %s)" % (c.inp(k, BV64), bv(1)))]
+    conj.append(p.out(_cf(c, "permit_idle_reset"), BOOL))
+    has_pn = eq(c.inp("_5#discr", I64), bv(1))
+    ins = p.called(r"insert_one")
+    conj.append(has_pn if ins else not_(has_pn))
+    ds = p.called(r"discard_space")
+    if ds:
+        # only a server, and only on its first Handshake packet
+        conj.append(eq(c.inp("_3#discr", I64), bv(1)))
+    return and_(*conj)
+
+
+Q(name="e2_on_packet_authenticated", props=["C04"], func=r"connection/mod\.rs:245:1[^>]*>::on_packet_authenticated$",
+  pure=[r"IndexMut<SpaceId>>::index_mut", r"Index<SpaceId>>::index", r"is_server", r"is_client", r"is_ce", r"is_some"],
+  modifies=lambda c: {r"reset_keep_alive|reset_idle_timeout|set_key_discard_timer": [_cf(c, "timers")],
+                      r"discard_space": [_cf(c, "spaces"), _cf(c, "timers"), _cf(c, "path"), _cf(c, "zero_rtt_crypto")],
+                      r"insert_one|set_immediate_ack_required|add_assign|emit_packet_received": ["*call:"]},
+  allowed_panics=r"attempt to compute",
+  functions=["Connection::on_packet_authenticated"], pre=opa_pre, post=opa_post,
+  bounds="every space, ECN mark, packet number (or none: Retry / Version Negotiation), side; timer helpers and discard_space opaque with a declared write set",
+  replay=("conn_on_packet_authenticated_native", lambda m: [dict(has_pn=0), dict(has_pn=1)]))
